@@ -9,7 +9,7 @@
 From Coq Require Import List ZArith Bool.
 From LJT Require Import gen.GenDest model.Dest model.WorstCase proofs.DestProofs proofs.DestLeak proofs.DestChunk proofs.WorstCaseProofs.
 From LJT Require Import gen.GenXformIcc model.XformIcc proofs.XformIccProofs proofs.WorstCaseBound.
-From LJT Require Import gen.GenEncoders model.Huff proofs.EncoderBounds proofs.DestGrowth.
+From LJT Require Import gen.GenEncoders model.Huff proofs.EncoderBounds proofs.DestGrowth proofs.WorstCaseShare proofs.DestIjgAny.
 Import ListNotations.
 Local Open Scope Z_scope.
 Local Open Scope bool_scope.
@@ -251,6 +251,71 @@ Theorem C13_xform_icc_old_rules_refuted :
    size_term setup_ii = 3000).
 Proof. exact xform_icc_old_rules_refuted. Qed.
 Print Assumptions C13_xform_icc_old_rules_refuted.
+
+(* ---- jdatadst.c jpeg_mem_dest under ANY allocator behaviour (address recycling, in-place shrink + re-arming the
+   same object with the same pointer and a smaller/larger *outsize): preconditions evaluated along the run *)
+Theorem C13_ijg_safe_any_allocator : forall hs, hist_pre cfg_ijg hs world0 = true -> lib_clean (run cfg_ijg hs) = true.
+Proof. exact ijg_lib_clean_any_allocator. Qed.
+Print Assumptions C13_ijg_safe_any_allocator.
+
+Theorem C13_ijg_call_contract_any_allocator : forall hs ops, hist_pre cfg_ijg (hs ++ [HCall true ops]) world0 = true ->
+  forallb no_abort ops = true ->
+  let w' := run cfg_ijg (hs ++ [HCall true ops]) in
+  lib_clean w' = true /\ w_size w' = Z.of_nat (length (bytes_of ops)) /\
+  contents (w_heap w') (w_buf w') (w_size w') = bytes_of ops.
+Proof. exact ijg_call_contract_any_allocator. Qed.
+Print Assumptions C13_ijg_call_contract_any_allocator.
+
+(* ---- F6 as statements (grayscale 8-bit; every block has a share of 128 bytes, + 2048 once) ---------- *)
+(* refuted: a block whose modelled encoding (Q100, standard tables, stuffing) needs 145 > 128 bytes, and the
+   128x128 image whose scan data alone (36355) exceed tj3JPEGBufSize (34816); replayed on the library *)
+Theorem C13_bufsize_worstcase_refuted :
+  (valid_block adv_block = true /\ scan_size [adv_block] = Some (145, 1002) /\ bufsize_bytes_per_luma * 64 = 128 /\ 128 < 145) /\
+  (Z.of_nat (length adv_image) = (PAD 128 8 / 8) * (PAD 128 8 / 8) /\ forallb valid_block adv_image = true /\
+   scan_bytes adv_image = Some 36355 /\ tj3JPEGBufSize 128 128 tjsamp_gray = 34816 /\ 34816 < 36355).
+Proof. exact bufsize_worstcase_refuted. Qed.
+Print Assumptions C13_bufsize_worstcase_refuted.
+
+(* sufficient when every block costs <= 504 bits under the tables in use: the scan data fit in the
+   per-sample part and the 2048 extra bytes remain for the headers *)
+Theorem C13_bufsize_sufficient_when : forall dc ac w h blocks bytes bits,
+  dc_tbl = Some dc -> ac_tbl = Some ac -> 0 < w -> 0 < h ->
+  Z.of_nat (length blocks) = (PAD w 8 / 8) * (PAD h 8 / 8) ->
+  Forall (block_cost_le dc ac 504) blocks ->
+  scan_size blocks = Some (bytes, bits) ->
+  bytes <= tj3JPEGBufSize w h tjsamp_gray - bufsize_slack.
+Proof. exact bufsize_sufficient_when_blocks_cheap. Qed.
+Print Assumptions C13_bufsize_sufficient_when.
+
+(* ... which holds with the STANDARD tables whenever all quantised AC coefficients are in -7..7 (<= 409 bits) *)
+Theorem C13_bufsize_sufficient_when_small_coefs : forall w h blocks bytes bits, 0 < w -> 0 < h ->
+  Z.of_nat (length blocks) = (PAD w 8 / 8) * (PAD h 8 / 8) ->
+  Forall small_block blocks ->
+  scan_size blocks = Some (bytes, bits) ->
+  bytes <= tj3JPEGBufSize w h tjsamp_gray - bufsize_slack /\ bits <= 409 * Z.of_nat (length blocks).
+Proof. exact bufsize_sufficient_when_small_coefs. Qed.
+Print Assumptions C13_bufsize_sufficient_when_small_coefs.
+
+(* the share is the same 128 bytes per block for every YCbCr subsampling level of the formula *)
+Theorem C13_share_per_block_all_subsamplings :
+  forallb (fun s => let mw := nth (Z.to_nat s) tj_mcu_width 0 in let mh := nth (Z.to_nat s) tj_mcu_height 0 in
+                    (s =? tjsamp_gray) ||
+                    ((bufsize_bytes_per_luma + 4 * 64 / (mw * mh)) * (mw * mh) =? 128 * (mw * mh / 64 + 2)))
+          [0; 1; 2; 3; 4; 5; 6] = true.
+Proof. exact share_per_block_all_subsamplings. Qed.
+Print Assumptions C13_share_per_block_all_subsamplings.
+
+(* ---- transform sizing incl. the marker overhead of the ICC chunks ---------------------------------- *)
+Theorem C13_xform_icc_bytes_sufficient_when : forall x k room, valid_setup x -> 0 <= k ->
+  icc_chunk_overhead * chunks_written x k <= room -> icc_bytes_written x k <= size_term x + room.
+Proof. exact xform_icc_bytes_sufficient_when. Qed.
+Print Assumptions C13_xform_icc_bytes_sufficient_when.
+
+Theorem C13_xform_icc_chunk_overhead_refuted :
+  valid_setup setup_chunks /\ icc_bytes_written setup_chunks 255 = 7140 /\ marker_budget setup_chunks = 4598 /\
+  marker_budget setup_chunks < icc_bytes_written setup_chunks 255.
+Proof. exact xform_icc_chunk_overhead_refuted. Qed.
+Print Assumptions C13_xform_icc_chunk_overhead_refuted.
 
 (* non-vacuity: the hypotheses of (1)-(4) hold for non-trivial histories (growth, reuse of a grown
    buffer with *jpegSize = 0, NOREALLOC success, caller frees) *)
